@@ -21,7 +21,7 @@ TEXT_PROPS = ["SUMMARY", "DESCRIPTION", "LOCATION", "COMMENT", "CONTACT", "X-VER
 
 
 class G:
-    def __init__(self, rng, hostile=0.15, custom_tz=True, unknown=True, max_depth=4, api_safe=False, param_hostile=True):
+    def __init__(self, rng, hostile=0.15, custom_tz=True, unknown=True, max_depth=4, api_safe=False, param_hostile=True, multi_resources=False):
         self.rng = rng
         self.hostile = hostile
         self.custom_tz = custom_tz and not api_safe
@@ -29,6 +29,7 @@ class G:
         self.max_depth = max_depth
         self.api_safe = api_safe
         self.param_hostile = param_hostile
+        self.multi_resources = multi_resources and not api_safe
         self.custom_ids = []
         self.uid = 0
 
@@ -170,6 +171,8 @@ class G:
             props.append(("SUMMARY", self.params(), ("text", self.text())))
         if r.randrange(3) == 0:
             props.append(("CATEGORIES", (), ("categories", tuple(self.text(2) for _ in range(r.randrange(1, 4))))))
+        if self.multi_resources and r.randrange(6) == 0 and kind in ("VEVENT", "VTODO"):
+            props.append(("RESOURCES", (), ("textlist", tuple(self.text(2) or "r" for _ in range(r.randrange(1, 4))))))
         if r.randrange(4) == 0 and kind in ("VEVENT", "VTODO"):
             lat = r.choice((round(r.uniform(-90, 90), r.randrange(0, 7)), 1e-05, 2.5e-07, -1.2345e-05, 0.0, 89.99999999999))
             lon = r.choice((round(r.uniform(-180, 180), r.randrange(0, 7)), 3.3e-06, -9.87654321e-05, 1e-10, 179.999999999))
@@ -361,7 +364,7 @@ def emit_value(name, v):
         return {}, fmt_td(v[1])
     if k == "utcoffset":
         return {}, fmt_offset(v[1])
-    if k == "categories":
+    if k in ("categories", "textlist"):
         return {}, ",".join(R1.encode(x) for x in v[1])
     if k == "period":
         p = {"VALUE": "PERIOD"} if name != "FREEBUSY" else {}
